@@ -582,6 +582,15 @@ def govExec (wall : Nat) (s : State) (m : Msg) : State × Bool :=
   | .ok (s', _) => (s', true)
   | .error _ => (s, false)
 
+/-- a governance proposal carrying several messages: x/gov accepts it only if the gov module account is the signer
+of every message, and executes the messages in order on a cached context — all or nothing -/
+def govExecAll (wall : Nat) (s : State) (msgs : List Msg) : State × Bool :=
+  if msgs.all (fun m => decide (m.signer = some Mgov)) then
+    match runMsgs wall s msgs with
+    | .ok (s', _) => (s', true)
+    | .error _ => (s, false)
+  else (s, false)
+
 /-- one statement of the enterprise `BeginBlocker` by the name of the keeper method it calls -/
 def beginStep (s : State) (name : String) : M State :=
   match name with
